@@ -79,7 +79,8 @@ func ivSlice(c *vm.Ctx, r *vm.Rand) []byte {
 	return buf[:16]
 }
 
-func checkSeq(c *vm.Ctx, r *vm.Rand, lens []int, decrypt bool) {
+// checkSeq runs one sequence of calls. forced, if not nil, gives the buffer layout of each call; otherwise each call draws one.
+func checkSeq(c *vm.Ctx, r *vm.Rand, lens []int, decrypt bool, forced ...layout) {
 	keyLen := []int{16, 24, 32}[r.Intn(3)]
 	key := r.Bytes(keyLen)
 	iv := ivSlice(c, r)
@@ -102,6 +103,9 @@ func checkSeq(c *vm.Ctx, r *vm.Rand, lens []int, decrypt bool) {
 		src := r.Bytes(n)
 		want := ref.do(src)
 		lay := layout(r.Intn(5))
+		if forced != nil {
+			lay = forced[ci]
+		}
 		lays = append(lays, layoutNames[lay])
 		var dst, srcBuf []byte
 		var guardFrom int
@@ -248,38 +252,17 @@ func checkConn(c *vm.Ctx, r *vm.Rand) {
 	if r.Intn(10) == 0 {
 		n = r.Range(100, 200)
 	}
-	type pkt struct {
-		id   int32
-		data []byte
+	// one connection in eight carries what the framing monitor sends: thresholds from its table, ids that take up to
+	// five bytes, sizes around the VarInt boundaries of the frame length and past 64 KiB
+	wide := r.Intn(8) == 0
+	if wide {
+		threshold = wideThresholds[r.Intn(len(wideThresholds))]
+		n = r.Range(1, 6)
 	}
-	pkts := make([]pkt, n)
-	sizes := []int{}
-	for i := range pkts {
-		var sz int
-		switch r.Intn(6) {
-		case 0:
-			sz = 0
-		case 1:
-			sz = max(0, threshold+r.Intn(5)-2)
-		case 2:
-			sz = []int{15, 16, 17, 31, 32, 33, 47, 48, 64}[r.Intn(9)]
-		case 3:
-			sz = r.Intn(5000)
-		default:
-			sz = r.Intn(200)
-		}
-		d := r.Bytes(sz)
-		if r.Bool() {
-			for j := range d {
-				d[j] = byte(j % 5)
-			}
-		}
-		pkts[i] = pkt{int32(r.Intn(300)), d}
-		sizes = append(sizes, sz)
-	}
+	pkts, sizes, ids := genPkts(r, threshold, n, wide)
 	var senderCipherFirst, recvCipherFirst bool
 	wit := func() any {
-		return map[string]any{"threshold": threshold, "packets": n, "sizes": sizes, "sender_sets_cipher_first": senderCipherFirst, "receiver_sets_cipher_first": recvCipherFirst}
+		return map[string]any{"threshold": threshold, "packets": n, "sizes": sizes, "ids": ids, "sender_sets_cipher_first": senderCipherFirst, "receiver_sets_cipher_first": recvCipherFirst}
 	}
 	wire := &bytes.Buffer{}
 	// sender
@@ -374,7 +357,83 @@ func checkConn(c *vm.Ctx, r *vm.Rand) {
 		} else {
 			c.Cover("conn.encrypted")
 		}
+		if wide {
+			c.Cover("conn.wide-ids-sizes-thresholds")
+			for i, sz := range sizes {
+				if sz > 1<<16 {
+					c.Cover("conn.frame-above-64KiB")
+				}
+				if ids[i] < 0 || ids[i] >= 1<<28 {
+					c.Cover("conn.five-byte-id")
+				}
+			}
+		}
 	})
+}
+
+type pkt struct {
+	id   int32
+	data []byte
+}
+
+var wideThresholds = []int{-1, 0, 1, 2, 63, 64, 256, 1 << 15, 1 << 21}
+
+var wideIDs = []int32{0, 1, 0x7f, 0x80, 0x3fff, 0x4000, 1<<21 - 1, 1 << 21, 1<<28 - 1, 1 << 28, 1<<31 - 1, -1, -128}
+
+func genPkts(r *vm.Rand, threshold, n int, wide bool) (pkts []pkt, sizes []int, ids []int32) {
+	pkts = make([]pkt, n)
+	big := 0
+	for i := range pkts {
+		var sz int
+		id := int32(r.Intn(300))
+		if wide {
+			if r.Intn(3) == 0 {
+				id = int32(r.Uint32())
+			} else {
+				id = wideIDs[r.Intn(len(wideIDs))]
+			}
+			switch r.Intn(8) {
+			case 0:
+				sz = 0
+			case 1, 2:
+				sz = max(0, min(threshold, 1<<16)+r.Intn(5)-2)
+			case 3:
+				sz = max(0, []int{127, 128, 16383, 16384}[r.Intn(4)]-r.Intn(8))
+			case 4, 5:
+				if big < 2 { // more than 64 KiB in one frame; at most two of them per connection (the reference decrypts byte by byte)
+					big++
+					sz = 1<<16 + r.Intn(40000)
+				} else {
+					sz = r.Intn(5000)
+				}
+			default:
+				sz = r.Intn(300)
+			}
+		} else {
+			switch r.Intn(6) {
+			case 0:
+				sz = 0
+			case 1:
+				sz = max(0, threshold+r.Intn(5)-2)
+			case 2:
+				sz = []int{15, 16, 17, 31, 32, 33, 47, 48, 64}[r.Intn(9)]
+			case 3:
+				sz = r.Intn(5000)
+			default:
+				sz = r.Intn(200)
+			}
+		}
+		d := r.Bytes(sz)
+		if r.Bool() {
+			for j := range d {
+				d[j] = byte(j % 5)
+			}
+		}
+		pkts[i] = pkt{id, d}
+		sizes = append(sizes, sz)
+		ids = append(ids, id)
+	}
+	return pkts, sizes, ids
 }
 
 func run(c *vm.Ctx) {
@@ -406,6 +465,27 @@ func run(c *vm.Ctx) {
 		}
 	}
 	c.Cover("sequences.all-of-length<=3")
+	// sequences of one and two calls with EVERY combination of buffer layouts: the second call then meets every
+	// state the first can leave (ring position after the byte-wise path, position 0 after the block-history path)
+	// through every path of its own; a third call of 17 bytes in place (byte-wise path, more than one block) shows
+	// the state the second one left
+	for _, dec := range []bool{false, true} {
+		for _, a := range callLens {
+			idx++
+			if idx%c.NShards != c.Shard {
+				continue
+			}
+			for la := inPlace; la <= adjacentDstBefore; la++ {
+				checkSeq(c, r, []int{a}, dec, la)
+				for _, b2 := range callLens {
+					for lb := inPlace; lb <= adjacentDstBefore; lb++ {
+						checkSeq(c, r, []int{a, b2, 17}, dec, la, lb, inPlace)
+					}
+				}
+			}
+		}
+	}
+	c.Cover("sequences.all-layouts-of-length<=2")
 	for i := 0; i < c.Scale(30000, 1000000); i++ {
 		k := r.Range(1, 12)
 		lens := make([]int, k)
@@ -427,5 +507,13 @@ func run(c *vm.Ctx) {
 	cr := c.Rand("conn")
 	for i := 0; i < c.Scale(1500, 40000); i++ {
 		checkConn(c, cr)
+	}
+	sr := c.Rand("conn-staged")
+	for i := 0; i < c.Scale(600, 16000); i++ {
+		checkConnStaged(c, sr)
+	}
+	dr := c.Rand("conn-duplex")
+	for i := 0; i < c.Scale(400, 10000); i++ {
+		checkConnDuplex(c, dr)
 	}
 }
